@@ -3,7 +3,7 @@ import serverlib as sl
 import srvprops
 
 PROP = "C14"
-THEOREMS = ["C14_limits_every_reachable_state", "C14_connection_limit", "C14_open_beyond_limit_refused", "C14_closed_connection_slot_released", "C14_hangup_slot_released", "C14_subscription_limit", "C14_subscription_zero_example", "C14_channel_capacity_at_admission", "C14_payload_limit", "C14_payload_limit_server_cap", "C14_acl_entry_limit", "C14_inflight_zero", "C14_capacity_not_invariant_after_config_change", "C14_channel_limit", "C14_channel_created_only_with_room", "C14_channel_slot_released", "C14_channel_limit_example", "C14_source_limits_wiring"]
+THEOREMS = ["C14_limits_every_reachable_state", "C14_connection_limit", "C14_open_beyond_limit_refused", "C14_closed_connection_slot_released", "C14_hangup_slot_released", "C14_subscription_limit", "C14_subscription_zero_example", "C14_channel_capacity_at_admission", "C14_payload_limit", "C14_payload_limit_server_cap", "C14_acl_entry_limit", "C14_inflight_zero", "C14_capacity_not_invariant_after_config_change", "C14_channel_limit", "C14_channel_created_only_with_room", "C14_channel_slot_released", "C14_channel_limit_example", "C14_source_limits_wiring", "C14_adjusted_limit_never_exceeds_configuration", "C14_adjusted_limit_cases"]
 
 
 def boot_stage(thorough, violations, stats):
@@ -16,10 +16,39 @@ def boot_stage(thorough, violations, stats):
         for k, x in st.items():
             stats[k] = stats.get(k, 0) + x
         for what, lim in v:
-            if "SIGTERM" in what or "did not stop" in what:
+            if "SIGTERM" in what or "did not stop" in what or "no longer serves new connections" in what:
                 continue      # shutdown behaviour is C20's business
             violations.append((PROP, "server started through narwhal_server::run: " + what, {"boot_limits": lim}, 0))
 
 
+def init_stage(thorough, violations, stats):
+    """start-up negotiation with the modulator (narwhal_modulator::init_modulator against a scripted S2M peer): the limits
+    the server goes on to run with never exceed its own configuration (Model/Link.adjust_limit)"""
+    import linklib as ll
+    from common import Rng, seed, coq_eval
+    rr = Rng(seed() + 47)
+    cases = ll.init_cases(rr, 60 if thorough else 16)
+    obs, out = ll.run_client(cases, tag="c14init")
+    if obs is None:
+        violations.append((PROP, "s2mclient harness crashed or hung in the start-up negotiation: " + out[-300:], cases[0], 0))
+        return
+    stats["startup_negotiations"] = len(cases)
+    for c, ob in zip(cases, obs):
+        for what in ll.init_monitor(c, ob):
+            violations.append((PROP, what, c, 0))
+    bad, cout = coq_eval(ll.PRELUDE, ll.init_conf_terms(cases, obs), kind="bool", tag="c14initc")
+    if bad is None:
+        violations.append((PROP, "start-up negotiation correspondence could not be evaluated: " + cout[-300:], cases[0], 0))
+    else:
+        for i in bad:
+            if not ll.init_monitor(cases[i], obs[i]):
+                violations.append((PROP, "start-up negotiation differs from Model/Link.adjust_limit: " + str(obs[i])[:200], cases[i], 0))
+
+
+def both_stages(thorough, violations, stats):
+    boot_stage(thorough, violations, stats)
+    init_stage(thorough, violations, stats)
+
+
 def run(tier, replay=None):
-    return srvprops.run(PROP, THEOREMS, tier, replay, extra_stage=boot_stage, extra_gen=lambda r, th: sl.kick_histories(r, th) + sl.slot_histories(r, th) + sl.inflight_histories(r, th), rule_note=' plus connections ending through the write-error path max_connections times followed by new connections, and requests timing out in a silent modulator max_inflight_requests times followed by a full pipelined window;' + ' plus directed removal histories: an owner removes a member with LEAVE on_behalf, then drops / fills its own limit / the removed member re-joins up to its limit / a namesake reconnects and probes ownership; ends with the CHANNELS-vs-MEMBERS audit (members must be alive)')
+    return srvprops.run(PROP, THEOREMS, tier, replay, extra_stage=both_stages, extra_gen=lambda r, th: sl.kick_histories(r, th) + sl.slot_histories(r, th) + sl.inflight_histories(r, th), rule_note=' plus connections ending through the write-error path max_connections times followed by new connections, and requests timing out in a silent modulator max_inflight_requests times followed by a full pipelined window;' + ' plus directed removal histories: an owner removes a member with LEAVE on_behalf, then drops / fills its own limit / the removed member re-joins up to its limit / a namesake reconnects and probes ownership; ends with the CHANNELS-vs-MEMBERS audit (members must be alive)')
